@@ -33,6 +33,11 @@ def events():
         "claim1b": wire.claim_packet(1, wire.iso_name(unique=7, mfr=229, function=140, dev_class=10)),
         "claim2b": wire.claim_packet(2, wire.iso_name(unique=8, mfr=1855, function=150, dev_class=40)),
     }
+    # the same kinds of traffic through the entry points that take text: a single frame as a Yacht Devices line,
+    # a single frame and a pre-assembled fast-packet message as Actisense records
+    ev["hdgY"] = ("yd", wire.yd_line(wire.can_id(2, 127250, 2, 255), bytes([7]) + hd[1:]))
+    ev["hdgA"] = ("actisense", wire.actisense_line(2, 255, 1, 127250, bytes([8]) + hd[1:]))
+    ev["fastA"] = ("actisense", wire.actisense_line(3, 255, 1, 130816, bytes.fromhex("1389550180fe7ffe7f")))
     fr = wire.fast_frames(3, bytes([0x02, 0x00]) + bytes(range(10, 17)))
     ident = wire.can_id(3, 130816, 1, 255)
     ev["f0"] = wire.ebyte_packet(ident, fr[0])
@@ -72,6 +77,8 @@ class Pair:
 def step_pair(s, packet):
     def one(d):
         try:
+            if isinstance(packet, tuple):
+                return (d.decode_yacht_devices_string if packet[0] == "yd" else d.decode_actisense_string)(packet[1]), None
             return d.decode_tcp(packet), None
         except Exception as ex:  # noqa: BLE001
             return None, f"{type(ex).__name__}: {ex}"
